@@ -65,8 +65,8 @@ func (w *c29eWorld) close() { vrand.SetGlobalSource(nil) }
 func (w *c29eWorld) newHI(addrs []netip.Addr, local, remote uint32, tag byte) *HostInfo {
 	hi := &HostInfo{vpnAddrs: addrs, localIndexId: local, remoteIndexId: remote, ConnectionState: &ConnectionState{},
 		HandshakePacket: map[uint8][]byte{handshakePacketStage0: {tag, byte(len(w.all))}},
-		lastHandshakeTime: uint64(100 + len(w.all)),
 		relayState:        RelayState{relayForByAddr: map[netip.Addr]*Relay{}, relayForByIdx: map[uint32]*Relay{}}}
+	c28SetInt(&hi.lastHandshakeTime, 100+len(w.all))
 	w.all = append(w.all, hi)
 	return hi
 }
